@@ -40,6 +40,11 @@ var Runners = map[string]func(tier string) int{
 	"C04": func(t string) int { return RunUnpackSafety("C04", t) },
 	"C15": RunC15,
 	"C03": RunC03,
+	"C10": RunC10,
+	"C17": RunC17,
+	"C13": RunC13,
+	"C08": func(t string) int { return RunBundleWorlds("C08", t) },
+	"C14": func(t string) int { return RunBundleWorlds("C14", t) },
 	"C06": RunC06,
 	"C07": RunC07,
 	"C11": RunC11,
@@ -47,4 +52,21 @@ var Runners = map[string]func(tier string) int{
 	"C02": func(t string) int { return RunPackTrees("C02", t) },
 	"C20": func(t string) int { return RunPackTrees("C20", t) },
 	"C05": func(t string) int { return RunPackTrees("C05", t) },
+}
+
+var timeZero time.Time
+
+func pathDir(p string) string {
+	if i := strings.LastIndex(p, "/"); i >= 0 {
+		return p[:i]
+	}
+	return "."
+}
+
+func pathJoin(a, b string) string {
+	out, _ := stackResolve(strings.Split(strings.TrimPrefix(a, "./"), "/"), b)
+	if a == "." {
+		out, _ = stackResolve(nil, b)
+	}
+	return strings.Join(out, "/")
 }
